@@ -23,7 +23,7 @@ fn catch<T>(f: impl FnOnce() -> T) -> Result<T, String> {
 pub fn capacity_grid<G: AffineRepr + 'static>(shape: &Shape, seed: u64, vals: impl Fn() -> Box<dyn Vals<FOf<G>>>) -> Vec<(String, bool)> {
     let mut out = vec![];
     let pad = shape.padded();
-    let pc = PedersenGens::<G>::default();
+    let pc = pc_for::<G>(&shape.name, seed);
     // an honest proof made with exactly enough generators
     let bp_ok = BulletproofGens::<G>::new(pad, 1);
     let shr0 = new_shared::<G>(shape, &Default::default(), vals());
@@ -129,7 +129,7 @@ where
     arena::set_ctx("setup");
     let mut job = Job { property: "C17".into(), scenario: format!("C17:{}:{}", shape.name, curve), curve: curve.into(), seed, shape: shape_json(shape), ..Default::default() };
     let pad = shape.padded();
-    let pc = PedersenGens::<SymA<C>>::default();
+    let pc = pc_for::<SymA<C>>(&shape.name, seed);
     job.params = serde_json::json!({"gates": shape.gates(), "padded": pad, "capacities": [pad, pad + 1, 2 * pad, 4 * pad]});
     // ---- independence from surplus capacity: the same function of (witness, i-th nonce, challenges)
     let shr = new_shared::<SymA<C>>(shape, &Default::default(), Box::new(SymVals::<C::ScalarField>::new(seed)));
